@@ -359,6 +359,10 @@ class LinearPaths:
     to_add = []
     for l in to_disconnect:
       l2 = l.clone()
+      if l2.record_type == "E":
+        self.__move_edge_end(l2, merged_name, segment_end, is_reversed)
+        to_add.append(l2)
+        continue
       is_to = (l2.to_segment == segment_end.segment)
       if is_to:
         l2.to_segment = merged_name
@@ -374,4 +378,28 @@ class LinearPaths:
     for l in to_add:
       self.add_line(l)
 
-
+  def __move_edge_end(self, edge, merged_name, segment_end, is_reversed):
+    # GFA2: the alignment keeps its length and lies at the end of the
+    # merged segment which corresponds to segment_end
+    mlen = self.segment(merged_name).length
+    end_type = segment_end.end_type
+    if is_reversed:
+      end_type = gfapy.invert(end_type)
+    ends = [edge.from_end, edge.to_end]
+    if not edge._is_sid1_from():
+      ends.reverse()
+    for i in [1, 2]:
+      if ends[i-1] == segment_end:
+        sid = edge.get("sid{}".format(i))
+        sid.line = merged_name
+        if is_reversed:
+          sid.orient = gfapy.invert(sid.orient)
+        alen = gfapy.posvalue(edge.get("end{}".format(i))) - \
+               gfapy.posvalue(edge.get("beg{}".format(i)))
+        if end_type == "L":
+          edge.set("beg{}".format(i), 0)
+          edge.set("end{}".format(i), alen)
+        else:
+          edge.set("beg{}".format(i), mlen - alen if alen > 0 else
+                                      gfapy.LastPos(mlen))
+          edge.set("end{}".format(i), gfapy.LastPos(mlen))
